@@ -3,11 +3,8 @@ from __future__ import annotations
 
 import ast
 
-from ..flow import enumerate_paths
-from ..source import norm
 from . import dg_rules as dg
 from . import core_folds as cf
-from .common import is_name, params, returns_of, single_return
 
 EXPLANATION = '(R1) Datagroup and Dataset interpreted over finite histories of set, delete, pop, get, update, clear, copy, iteration, membership, len: dictionary behaviour, shape/type gates, every stored item renamed (and parented); (R2) indexing/sorting keep members aligned and named; (R3) Datagroup.__eq__ over abstract cases: equal iff same keys and no element of any member differs (Vectors by components, not by norm); (R4) Array.to exact (shared).'
 NOT_DECIDED = "numpy's element-wise comparison; insertion order of Python dicts (language guarantee)"
